@@ -51,7 +51,12 @@ def markup_src(m: dict[str, Any]) -> str:
     if k == "assign":
         return "{%" + h(f[0]) + " assign v = 1 " + h(f[1]) + "%}"
     if k == "inline":
-        return "{%" + h(f[0]) + " # note " + h(f[1]) + "%}"
+        text = m.get("lit") or ""
+        if text == "TIGHT":
+            return "{%" + h(f[0]) + "#" + h(f[1]) + "%}"  # an empty inline comment without any padding
+        if text == "EMPTY":
+            return "{%" + h(f[0]) + " # " + h(f[1]) + "%}"
+        return "{%" + h(f[0]) + " # " + (text or "note") + " " + h(f[1]) + "%}"
     if k == "liquid":
         return "{%" + h(f[0]) + " liquid\n echo '" + m["lit"] + "'\n echo 'q'\n" + h(f[1]) + "%}"
     if k == "tcomment":
@@ -194,7 +199,7 @@ KINDS4 = ["raw", "comment", "doc", "if"]
 def markups(tc: bool, bodies: list[str], lits: list[str]):
     for k in KINDS2 + (["tcomment"] if tc else []):
         for f in itertools.product((0, 1), repeat=2):
-            for lit in (lits if k in ("out", "liquid") else [""]):
+            for lit in (lits if k in ("out", "liquid") else ["note", "EMPTY", "TIGHT", "a # b"] if k == "inline" else [""]):
                 yield {"k": k, "f": list(f), "lit": lit}
     for k in KINDS4:
         for f in itertools.product((0, 1), repeat=4):
